@@ -17,7 +17,7 @@ import plans
 HERE = os.path.dirname(os.path.dirname(os.path.abspath(__file__)))
 REPO = os.environ.get("REPO", "/repo")
 GOENV = dict(os.environ, GOFLAGS="-mod=mod", GOPROXY="off", GOSUMDB="off", GOTOOLCHAIN="local")
-ALL_CMDS = ["inorun", "opsrun", "diffrun"]
+ALL_CMDS = ["inorun", "opsrun", "diffrun", "kqrun"]
 RACE_CMDS = ["inostress"]
 JOBS = int(os.environ.get("VERIF_JOBS", "12"))
 
@@ -208,7 +208,7 @@ def steps_hash(sc):
 
 def _run_ino(prop, tier, seed, plan, tmp, t0, only_scn):
     scale = float(os.environ.get("VERIF_SCALE", "1"))
-    inorun = build("inorun")
+    inorun = build(plan.get("driver", "inorun"))
     # 1. model checking of the bounded models (design level)
     mc = []
     if only_scn is None and os.environ.get("VERIF_SKIP_MC") != "1":
@@ -240,7 +240,7 @@ def _run_ino(prop, tier, seed, plan, tmp, t0, only_scn):
         log("INFRA-ERROR: inorun rc=%d: %s" % (p.returncode, (p.stdout + p.stderr)[-2000:]))
         return 2
     # 4. validate the traces against the specification
-    res = run_trace("InotifyTrace", trace, tmp)
+    res = run_trace(plan.get("trace_spec", "InotifyTrace"), trace, tmp)
     if res.get("consumed") != res.get("total") or res["tlc_rc"] != 0:
         log("MODEL-ERROR: trace not consumed to the end (%s of %s lines), TLC rc=%s" % (res.get("consumed"), res.get("total"), res["tlc_rc"]))
         log(res["tlc_tail"])
@@ -336,7 +336,7 @@ def _run_ino(prop, tier, seed, plan, tmp, t0, only_scn):
                 known_findings_hit=sorted(known_hit),
                 samples=samples,
                 exhaustive=False),
-            assumptions=[
+            assumptions=plan.get("assumptions") or [
                 "kernel behaviour is taken from the shadow inotify instance recorded with every step (ground truth), not predicted",
                 "quiescence is detected from goroutine states and FIONREAD; a call is 'blocked' only if still parked after %s ms" % os.environ.get("VERIF_BLOCKWAIT_MS", "2000"),
                 "model-checking results hold for the stated small constants only",
@@ -360,7 +360,7 @@ def run_check(prop, tier, seed):
                 rc2 = engine_lin.run(prop, tier, seed, plan, merge=True, full=True)
                 rc = 2 if rc2 == 2 else max(rc, rc2)
             return rc
-        if plan["engine"] == plans.INO:
+        if plan["engine"] in (plans.INO, "kq"):
             rc = run_ino(prop, tier, seed, plan)
             if rc != 2 and plan.get("also_lin"):
                 import engine_lin
@@ -387,7 +387,7 @@ def replay(prop, path):
         if plan["engine"] == plans.INO and os.path.exists(os.path.join(path, "history.ndjson")):
             import engine_lin
             return engine_lin.replay(prop, path, plan)
-        if plan["engine"] == plans.INO:
+        if plan["engine"] in (plans.INO, "kq"):
             tmp = scratch()
             try:
                 one = os.path.join(tmp, "one.ndjson")
